@@ -124,6 +124,15 @@ fn cases() -> Vec<Bad> {
                 c.max_reg_count += 1;
                 c.output_regs = c.output_regs.iter().map(|r| if (r.0 as usize) >= k { Reg(r.0 + 1) } else { *r }).collect();
             }));
+            v.push(with_circ("output-register-never-written", &|c| {
+                c.max_reg_count += 1;
+                c.output_regs.push(Reg((c.max_reg_count - 1) as u32));
+            }));
+            if std::env::var("PV_C18_HUGE").is_ok() {
+                // only in a child process (see run()): a failed allocation aborts the process
+                v.push(with_circ("and_ops-huge", &|c| c.and_ops = 1 << 40));
+                v.push(with_circ("and_ops-usize-max", &|c| c.and_ops = usize::MAX));
+            }
             v.push(with_circ("input-party-out-of-range", &|c| {
                 if let Op::Input(i) = &mut c.insts[0].op { i.party = 7; }
             }));
@@ -211,7 +220,17 @@ fn run_one(b: &Bad) -> Out {
 
 pub fn run(tier: &str, seed: u64) -> i32 {
     let mut rep = Report::new("C18", tier, seed, "exploration");
-    rep.rule = "every documented-invalid value of each mpc argument (own / evaluator / output index in {n, n+1, usize::MAX}, input length 0 / -1 / +1 / huge, empty, repeated and unsorted output sets) and circuit descriptions whose counters disagree with their instructions (and_ops wrong, Input after a gate, surplus Input, Input.party / Input.input out of range, max_reg_count too small, no outputs), used by one party or by all, n in {2,3}. Oracle: Err with 0 channel operations and no panic; repeated output indices: that, or the result of the de-duplicated set. distinct = (n, invalid-argument class, one/all parties); every case is non-trivial".into();
+    rep.rule = "every documented-invalid value of each mpc argument (own / evaluator / output index in {n, n+1, usize::MAX}, input length 0 / -1 / +1 / huge, empty, repeated and unsorted output sets) and circuit descriptions whose counters disagree with their instructions (and_ops wrong incl. 2^40 and usize::MAX in a child process, an output register that no instruction writes, Input after a gate, surplus Input, Input.party / Input.input out of range, max_reg_count too small, no outputs), used by one party or by all, n in {2,3}. Oracle: Err with 0 channel operations and no panic; repeated output indices: that, or the result of the de-duplicated set. distinct = (n, invalid-argument class, one/all parties); every case is non-trivial".into();
+    if tier == "huge-child" {
+        // child process: only the cases with huge counters; one line per case on stdout
+        let all: Vec<Bad> = cases().into_iter().filter(|b| b.class.contains("and_ops-huge") || b.class.contains("and_ops-usize-max")).collect();
+        for b in &all {
+            let o = run_one(b);
+            println!("HUGE-CASE n={} {} => {}", o.n, o.class, match (&o.end, &o.sig) { (RunEnd::HarnessError(e), _) => format!("HARNESS {e}"), (_, Some(s)) => format!("VIOLATION {s}"), _ => "OK".to_string() });
+        }
+        println!("HUGE-DONE {}", all.len());
+        return 0;
+    }
     let all = cases();
     let reps = if tier == "thorough" { 3 } else { 1 };
     let outs = parallel_for(all.len() * reps, threads(), |i| run_one(&all[i % all.len()]));
@@ -227,6 +246,40 @@ pub fn run(tier: &str, seed: u64) -> i32 {
             Some(s) => rep.violation(s, o.sample),
             None => { if rep.evaluations % 17 == 1 { rep.sample(o.sample) } }
         }
+    }
+    // counters far beyond anything allocatable: a failed allocation aborts the process (it cannot be
+    // caught), so these cases run in a child process
+    match std::env::current_exe() {
+        Ok(exe) => {
+            let out = std::process::Command::new(exe).args(["C18", "huge-child", "--seed", &seed.to_string()]).env("PV_C18_HUGE", "1").output();
+            match out {
+                Ok(o) => {
+                    let text = String::from_utf8_lossy(&o.stdout).to_string();
+                    let mut done = false;
+                    for l in text.lines() {
+                        if let Some(rest) = l.strip_prefix("HUGE-CASE ") {
+                            rep.evaluations += 1;
+                            let (case, res) = rest.split_once(" => ").unwrap_or((rest, "?"));
+                            rep.distinct.insert(case.to_string());
+                            if let Some(sig) = res.strip_prefix("VIOLATION ") {
+                                rep.violation(sig.to_string(), json!({"case": case, "child": "in-process result"}));
+                            } else if let Some(e) = res.strip_prefix("HARNESS ") {
+                                rep.harness_error(e.to_string());
+                            }
+                        }
+                        if l.starts_with("HUGE-DONE") { done = true; }
+                    }
+                    if !done {
+                        let err = String::from_utf8_lossy(&o.stderr);
+                        let first = err.lines().find(|l| l.contains("memory allocation") || l.contains("panicked") || l.contains("overflow")).unwrap_or("").to_string();
+                        rep.evaluations += 1;
+                        rep.violation("the process aborted on a circuit whose and_ops counter is far larger than its instructions (counters:and_ops-huge)".to_string(), json!({"exit_status": format!("{:?}", o.status), "stderr_line": first, "cases_completed_before": text.lines().filter(|l| l.starts_with("HUGE-CASE")).count()}));
+                    }
+                }
+                Err(e) => rep.harness_error(format!("cannot start the child process for the huge-counter cases: {e}")),
+            }
+        }
+        Err(e) => rep.harness_error(format!("current_exe: {e}")),
     }
     rep.finish()
 }
